@@ -135,6 +135,73 @@ theorem roll_closes_old_lead (w : World K) (b : Broker K) (nlv : K) (r : Rebal K
 
 end
 
+section
+variable {K : Type} [Field K] [LinearOrder K] [IsStrictOrderedRing K] [HasTrunc K]
+
+theorem makeRequest_ok (chains : List (Key × Chain)) (clock : Option Time) (sp : Space K) (a : Action K)
+    (now : Time) (reb : Rebal K) (h : makeRequest chains clock sp a now = .ok reb) :
+    ∃ ks, sp.keys.mapM (resolveKey chains clock) = some ks ∧ reb.target = ks.zip (denote sp a) ∧
+      reb.absolute = true ∧ reb.fractional = sp.fractional := by
+  unfold makeRequest at h
+  split_ifs at h
+  cases hm : sp.keys.mapM (resolveKey chains clock) with
+  | none => rw [hm] at h; cases h
+  | some ks =>
+      rw [hm] at h
+      simp only [Except.ok.injEq] at h
+      subst h
+      exact ⟨ks, rfl, rfl, rfl, rfl⟩
+
+/-- the keys of a cleaned target are among the resolved keys, without repetition when those are distinct -/
+theorem cleanAlloc_zip_keys (w : World K) (ks : List Key) (v : List K) :
+    ((cleanAlloc w (ks.zip v)).map (·.1)).Sublist ks := by
+  unfold cleanAlloc
+  refine (List.filter_sublist.map _).trans ?_
+  induction ks generalizing v with
+  | nil => simp
+  | cons k ks ih =>
+      cases v with
+      | nil => simp
+      | cons x xs => simp only [List.zip_cons_cons, List.map_cons]; exact (ih xs).cons₂ k
+
+/-- **After any executed decision, every non-cash contract the action space did not resolve to is flat** —
+    whatever the threshold: with a chain key in the space, every contract of the chain other than the current
+    lead has position zero after the rebalance (the old lead has been closed). -/
+theorem chain_others_flat (pw : K → K → K) (cfg : EnvCfg K) (s1 : EnvState K) (act : Action K) (D : K)
+    (hinv : Inv cfg.world D s1.broker) (ks : List Key)
+    (hks : cfg.space.keys.mapM (resolveKey cfg.chains s1.contractClock) = some ks) (hnd : ks.Nodup)
+    (hfrac : cfg.space.fractional = true)
+    (hok : (stepExec pw cfg s1 act).2 = .ok true)
+    (hs : (stepExec pw cfg s1 act).1.broker.snapped = false)
+    (k : Key) (hc : (cfg.world.spec k).isCash = false) (hout : k ∉ ks) :
+    (stepExec pw cfg s1 act).1.broker.pos k = 0 := by
+  unfold stepExec at hok hs ⊢
+  cases hreq : makeRequest cfg.chains s1.contractClock cfg.space act (s1.now.getD 0) with
+  | error e => rw [hreq] at hok; cases hok
+  | ok reb =>
+    rw [hreq] at hok hs
+    simp only at hok hs ⊢
+    obtain ⟨ks', hks', htgt, habs, hfr⟩ := makeRequest_ok _ _ _ _ _ _ hreq
+    rw [hks] at hks'
+    cases hks'
+    have hsub := cleanAlloc_zip_keys cfg.world ks (denote cfg.space act)
+    cases hreb : rebalance pw cfg.world reb s1.broker with
+    | mk b2 res =>
+      rw [hreb] at hok hs
+      have hb2 : b2 = (rebalance pw cfg.world reb s1.broker).1 := by rw [hreb]
+      cases res with
+      | error e => cases e <;> simp at hok
+      | ok u =>
+          simp only at hs ⊢
+          rw [hb2] at hs ⊢
+          apply rebalance_closes_untargeted pw cfg.world D reb s1.broker hinv (by rw [hreb]) hs
+            (by rw [hfr]; exact hfrac) habs
+          · rw [htgt]; exact hnd.sublist hsub
+          · exact hc
+          · rw [htgt]; intro hin; exact hout (hsub.subset hin)
+
+end
+
 /-- the built-in classes give a non-empty roll window: the last trading date is strictly before the expiry
     (C19), so a step falling in `[last trading date, expiry)` finds the chain already resolved to the next
     contract -/
